@@ -360,6 +360,189 @@ class Sys(Family):
         return ConnFamily.shrink(self, case, bad)
 
 
+# what a handler can hand back instead of a response (a forgotten `return`, the pieces of a response as a tuple, the header as
+# text, a bare status, ...) and what it can raise: ordinary values and Exception classes, each built afresh per call
+JUNK = {
+    "none": lambda: None,
+    "tuple": lambda: (20, "text/gemini", "ok\n"),
+    "str": lambda: "20 text/gemini\r\nok\n",
+    "bytes": lambda: b"20 text/gemini\r\nok\n",
+    "int": lambda: 20,
+    "true": lambda: True,
+    "dict": lambda: {"status": 20, "meta": "text/gemini", "body": "ok\n"},
+    "list": lambda: [20, "text/gemini"],
+    "object": lambda: object(),
+    "class": lambda: __import__("nauyaca.protocol.response", fromlist=["GeminiResponse"]).GeminiResponse,     # the class, not an instance
+    "duck-nourl": lambda: __import__("types").SimpleNamespace(status=20, meta="text/gemini", body="ok\n"),     # a look-alike without .url
+    "duck": lambda: __import__("types").SimpleNamespace(status=20, meta="text/gemini", body="ok\n", url=None),
+    "generator": lambda: (x for x in (20, "text/gemini")),
+    # look-alikes that have a `.url` but lack the attributes a response is serialised from (found by builder b1 on the tree before
+    # fix db3047c: the response was marked as sent before `.status` was read, nothing was written and nothing closed the connection)
+    "urlonly": lambda: __import__("types").SimpleNamespace(url="x"),
+    "nostatus": lambda: __import__("types").SimpleNamespace(url="gemini://h/", meta="text/gemini", body="ok\n"),
+}
+RAISES = {
+    "runtime": lambda: RuntimeError("boom"),
+    "crlf": lambda: ValueError("first\r\nsecond 20 text/gemini\r\n"),
+    "key": lambda: KeyError("k"),
+    "oserror": lambda: OSError(28, "No space left on device"),
+    "long": lambda: Exception("x" * 3000),
+    "nonascii": lambda: LookupError("caf\u00e9 \u20ac \U0001f600 \udcff"),
+    "empty": lambda: Exception(),
+    "timeout": lambda: TimeoutError(),
+    "assert": lambda: AssertionError(("a", 1)),
+    "unicode": lambda: UnicodeDecodeError("utf-8", b"\xff", 0, 1, "invalid start byte"),
+    "stopiter": lambda: StopAsyncIteration("done"),
+    "memory": lambda: MemoryError(),
+    # not an Exception but a BaseException: what `task.result()` raises for a cancelled task (before fix 66c03c5 it escaped the
+    # done-callbacks: no response, no close)
+    "cancelled": lambda: __import__("asyncio").CancelledError(),
+}
+
+
+class Outcomes(Family):
+    """whatever a request or upload handler DOES - hands back a response, hands back something that is no response at all, raises
+    an exception of whatever class - and WHEN it does it - at once (synchronous handler), after some turns of the event loop, after
+    some time (coroutine handlers, every upload handler): one well-formed response, then the close.  The deferred completions are
+    the point: their results are looked at in a done-callback of the task, where an exception that escapes reaches nobody.
+    Direct oracle (the renderer theorem and M-Sys cover what a response becomes; a value that is no response behaves, for the
+    model, like a handler that raises)."""
+
+    name = "outcomes"
+    quick_n = 700
+    thorough_n = 15000
+
+    GEMINI = [b"gemini://h/x\r\n", b"gemini://h/a/b?q=1\r\n", b"gemini://h/\r\nEXTRA"]
+    TITAN = [b"titan://h/f;size=3\r\nabc", b"titan://h/f;size=0\r\n", b"titan://h/d/e.txt;size=5;mime=text/plain;token=t\r\nhello"]
+
+    def gen(self, rng: random.Random, n: int):
+        from .srvfam import cut, gen_resp
+
+        outs = [["junk", k] for k in JUNK] + [["raise", k] for k in RAISES]
+        fixed = []
+        for kind in ("sync", "async", "upload"):
+            for out in outs:
+                for wait in (["y", 0], ["y", 3], ["t", 4]):
+                    if kind == "sync" and (wait != ["y", 0] or out == ["raise", "cancelled"]):
+                        continue        # (CancelledError is what a cancelled TASK's result raises: deferred completions only)
+                    line = (self.TITAN if kind == "upload" else self.GEMINI)[0]
+                    fixed.append({"kind": kind, "out": out, "wait": wait, "mw": False,
+                                  "evs": [["d", line.hex()]] + ([["tick", 8]] if wait[0] == "t" else [])})
+        k = 0
+        for c in self.share(fixed):
+            k += 1
+            yield c
+        while k < n:
+            k += 1
+            kind = rng.choice(("sync", "async", "async", "upload", "upload"))
+            r = rng.random()
+            out = ["resp", gen_resp(rng)] if r < 0.25 else rng.choice(outs)
+            if out == ["raise", "cancelled"] and kind == "sync":
+                kind = "async"
+            wait = ["y", rng.choice((0, 1, 2, 5, 9))] if rng.random() < 0.6 else ["t", rng.choice((1, 4, 8, 40, 400, 4000))]
+            line = rng.choice(self.TITAN if kind == "upload" else self.GEMINI)
+            mw = rng.random() < 0.3
+            evs = [["d", x.hex()] for x in cut(rng, line, 2)]
+            if mw:
+                evs.append(["ma"])
+            if wait[0] == "t" and kind != "sync":
+                q = rng.random()
+                steps = [wait[1]] if q < 0.4 else [1] * min(wait[1], 10) + [wait[1]] if q < 0.7 else [wait[1] * 3] if q < 0.9 else [max(1, wait[1] // 2)]
+                evs += [["tick", t] for t in steps]
+            # the transport's and the peer's side of the story, anywhere
+            for _ in range(rng.choice((0, 0, 1, 2))):
+                q = rng.random()
+                evs.insert(rng.randint(0, len(evs)), ["lim", rng.randint(0, 2)] if q < 0.4 else ["pw"] if q < 0.6 else ["rw"] if q < 0.8 else ["l"])
+            evs += [["rw"]] * rng.choice((0, 2))
+            yield {"kind": kind, "out": out, "wait": wait, "mw": mw, "evs": evs, "eof": rng.random() < 0.5}
+
+    def impl(self, case):
+        import asyncio
+
+        from .srvfam import get_loop
+
+        loop = get_loop()
+        st = {"started": 0, "finished": 0}
+        kind, out, wait = case["kind"], case["out"], case["wait"]
+
+        def produce():
+            st["finished"] += 1
+            if out[0] == "resp":
+                return sim.mkresp(out[1])
+            if out[0] == "raise":
+                raise RAISES[out[1]]()
+            return JUNK[out[1]]()
+
+        async def later():
+            if wait[0] == "t":
+                await asyncio.sleep(wait[1] / 8)
+            else:
+                for _ in range(wait[1]):
+                    await asyncio.sleep(0)
+            return produce()
+
+        def handler(req):
+            st["started"] += 1
+            return produce() if kind == "sync" else later()
+
+        class Up:
+            async def handle_upload(self, req):
+                st["started"] += 1
+                return await later()
+
+        c = {"mw": case["mw"], "up": True, "handler": ["a"], "evs": case["evs"]}
+        if "eof" in case:
+            c["eof"] = case["eof"]
+        o = loop.run_until_complete(sim.run_conn(loop, c, handler=handler, upload_handler=Up()))
+        # a handler still waiting for its time when the case ends must not wake up during a later case on this loop
+        left = [t for t in asyncio.all_tasks(loop) if not t.done()]
+        for t in left:
+            t.cancel()
+        if left:
+            loop.run_until_complete(sim._drain())
+        return {"acts": o["acts"], "lens": o["lens"], "dropped": o["dropped"], "exc": o["exc"], "lost": o["lost"], "paused_end": o["paused_end"],
+                "pending": o["pending"], "m": o["m"], "started": st["started"], "finished": st["finished"]}
+
+    def oracle(self, case, obs):
+        acts = obs["acts"]
+        what = f"{case['kind']} handler that " + {"resp": "returns a response", "junk": f"returns {case['out'][1]!r} (no response object)", "raise": f"raises {case['out'][1]!r}"}[case["out"][0]] \
+            + ("" if case["kind"] == "sync" else f" after {case['wait'][1]} turns of the event loop" if case["wait"][0] == "y" else f" after {case['wait'][1] / 8} s")
+        esc = f"; an exception reached the event loop: {obs['exc'][0]}" if obs["exc"] else ""
+        if obs["started"] > 1 or obs["finished"] > 1:
+            return ("handler-twice", f"{what}: invoked {obs['started']} times on one connection")
+        raw = b"".join(bytes.fromhex(a[1]) for a in acts if a[0] == "w")
+        if obs["dropped"]:
+            return ("bytes-after-close", f"{what}: {obs['dropped']} writes after the close")
+        li = next((i for i, e in enumerate(case["evs"]) if e[0] == "l"), None)
+        if li is not None and any(a[0] == "w" for a in acts[obs["lens"][li - 1] if li else 0:]) and obs["finished"] and not acts[:obs["lens"][li - 1] if li else 0]:
+            # (pieces of a response begun before the peer went away are the write pump's business, family sys)
+            return ("write-after-disconnect", f"{what}: the peer had disconnected before anything was written, yet {len(raw)} bytes were written afterwards")
+        if ["close"] in acts:
+            ok, why = sim.wellformed_trace(acts)
+            if not ok:
+                return ("malformed-response" if acts[-1] == ["close"] and acts.count(["close"]) == 1 else "bytes-after-close", f"{what}: {why}{esc}")
+            return None
+        if raw:
+            if raw.find(b"\r\n") >= 0 and sim.HEADER_RE.match(raw) is None:
+                return ("malformed-response", f"{what}: header written so far is not well-formed: {raw[:60]!r}")
+            if not obs["lost"] and not obs["paused_end"]:
+                return ("never-closed", f"{what}: {len(raw)} response bytes written, transport writable, peer connected, but the connection was not closed{esc}")
+            return None
+        # nothing written, not closed: only while somebody has not had his say yet, or when the peer is gone
+        if obs["finished"] and not obs["lost"] and not obs["paused_end"]:
+            return ("no-response", f"{what}: the request was complete, the handler has finished, the peer is still connected - and nothing was written, "
+                                   f"the connection is still open{esc}")
+        return None
+
+    def key(self, case, obs):
+        raw = b"".join(bytes.fromhex(a[1]) for a in obs["acts"] if a[0] == "w")
+        w = "y0" if case["wait"] == ["y", 0] else case["wait"][0]
+        return f"{case['kind']}|{case['out'][0]}:{case['out'][1] if case['out'][0] != 'resp' else ''}|{w}|mw{int(case['mw'])}|{raw[:2].decode('latin1') or '-'}|closed{int(['close'] in obs['acts'])}|fin{obs['finished']}"
+
+    def shrink(self, case, bad):
+        return ConnFamily.shrink(self, case, bad)
+
+
 class Pair(Family):
     """two (or three) connections served by one process at the same time, their events interleaved: every connection gets exactly the
     response it gets when it is alone - nothing of one connection (buffers, queues, cached requests, peer data) shows up in another"""
@@ -468,4 +651,4 @@ class LiveTail(Family):
         return self._live.key(case, obs)
 
 
-FAMILIES = [Events(), Render(), Pump(), Content(), Flow(), Sys(), Pair(), LiveTail()]
+FAMILIES = [Events(), Render(), Pump(), Content(), Flow(), Sys(), Outcomes(), Pair(), LiveTail()]
